@@ -652,6 +652,108 @@ fn fc_stream(out: &mut Out, rng: &mut Rng, thorough: bool) {
         fc_case(out, ty, &bin("*", lit(&big), lit("10.0")), "1.5", "0.7", "const-overflow");
         fc_case(out, ty, &bin("+", lit(&big), lit(&big)), "1.5", "0.7", "const-overflow");
     }
+    fc_kind_stream(out, &mut rng.fork(0x6b696e64), thorough);
+}
+
+/// The KIND of a printed constant.  Go reads a literal token without `.`/exponent as an INTEGER constant, and an
+/// operator on two integer constants is integer arithmetic: `7 / 2` is 3 (truncated), `7.0 / 2.0` is 3.5.  A float
+/// literal whose value is a whole number therefore only means the written number as an OPERAND when its spelling
+/// keeps it of floating-point kind; standing alone (`var x float32 = 7`) either spelling is the same float.  These
+/// cases put whole-number literals wherever the back end prints an operand: both operands whole (every operator; the
+/// quotient whole or not), negated, beside a non-whole literal, beside a variable, nested, as call argument, in a
+/// comparison and in a condition, at magnitudes on both sides of 2^24 / 2^32 / 2^53 / 2^64.
+fn fc_kind_stream(out: &mut Out, rng: &mut Rng, thorough: bool) {
+    let ops: [&'static str; 4] = ["+", "-", "*", "/"];
+    let cmps: [&'static str; 6] = ["<", "<=", ">", ">=", "==", "!="];
+    let small: Vec<String> = (if thorough { (1..=12).collect::<Vec<u32>>() } else { vec![1, 2, 3, 7, 10] }).iter().map(|k| format!("{}.0", k)).collect();
+    for ty in ["float32", "float64"] {
+        for x in &small {
+            for y in &small {
+                for op in ops {
+                    fc_case(out, ty, &bin(op, lit(x), lit(y)), "1.5", "0.7", "whole-op-whole");
+                }
+            }
+        }
+        // seeded random whole operands of 1..7 digits, and large ones around the integer-precision ends
+        for _ in 0..(if thorough { 300 } else { 30 }) {
+            let d = |rng: &mut Rng| -> String { format!("{}.0", 1 + rng.next() % 10u64.pow(1 + rng.below(7) as u32)) };
+            let (x, y) = (d(rng), d(rng));
+            fc_case(out, ty, &bin(ops[rng.below(4)], lit(&x), lit(&y)), "1.5", "0.7", "whole-op-whole");
+            fc_case(out, ty, &bin("/", lit(&x), lit(&y)), "1.5", "0.7", "whole-op-whole");
+        }
+        for (x, y) in [("16777217.0", "2.0"), ("16777215.0", "2.0"), ("4294967297.0", "3.0"), ("9007199254740993.0", "2.0"), ("9007199254740991.0", "2.0"),
+                       ("18446744073709551616.0", "3.0"), ("100000000000000000000.0", "3.0"), ("1.0", "16777217.0"), ("1.0", "18446744073709551616.0")] {
+            for op in ops {
+                fc_case(out, ty, &bin(op, lit(x), lit(y)), "1.5", "0.7", "whole-op-whole");
+            }
+        }
+        for (x, y) in [("7.0", "2.0"), ("1.0", "3.0"), ("10.0", "4.0")] {
+            let n = |t: &str| FE::Neg(Box::new(lit(t)));
+            for op in ops {
+                // negated whole operands (integer division truncates toward zero: -7 / 2 is -3, not -3.5 and not -4)
+                fc_case(out, ty, &bin(op, n(x), lit(y)), "1.5", "0.7", "whole-neg");
+                fc_case(out, ty, &bin(op, lit(x), n(y)), "1.5", "0.7", "whole-neg");
+                // beside a literal that is not whole: the expression is of floating-point kind whatever the whole one looks like
+                fc_case(out, ty, &bin(op, lit(x), lit("0.5")), "1.5", "0.7", "whole-op-frac");
+                fc_case(out, ty, &bin(op, lit("2.5"), lit(y)), "1.5", "0.7", "whole-op-frac");
+                // beside a variable: a typed run-time operation
+                fc_case(out, ty, &bin(op, FE::Var("a"), lit(y)), x, "0.7", "whole-op-var");
+                fc_case(out, ty, &bin(op, lit(x), FE::Var("b")), "1.5", y, "whole-op-var");
+                // nested: the intermediate result is named by ANF
+                fc_case(out, ty, &bin(op, bin("/", lit(x), lit(y)), lit(y)), "1.5", "0.7", "whole-nested");
+                fc_case(out, ty, &bin(op, lit(x), bin("/", lit(x), lit(y))), "1.5", "0.7", "whole-nested");
+            }
+            fc_case(out, ty, &FE::Neg(Box::new(bin("/", lit(x), lit(y)))), "1.5", "0.7", "whole-nested");
+            fc_case(out, ty, &FE::Call(Box::new(bin("/", lit(x), lit(y)))), "1.5", "0.7", "whole-call-arg");
+            fc_case(out, ty, &FE::Call(Box::new(lit(x))), "1.5", "0.7", "whole-call-arg");
+            for op in cmps {
+                fc_case(out, ty, &cmp(op, lit(x), lit(y)), "1.5", "0.7", "whole-cmp");
+                fc_case(out, ty, &cmp(op, bin("/", lit(x), lit(y)), lit("3.0")), "1.5", "0.7", "whole-cmp");
+                let c = cmp(op, bin("/", lit(x), lit(y)), FE::Var("a"));
+                fc_case(out, ty, &FE::If(Box::new(c), Box::new(bin("/", lit(y), lit(x))), Box::new(bin("/", FE::Var("b"), lit(y)))), "3.0", "5.0", "whole-condition");
+            }
+        }
+    }
+}
+
+// ------------------------------------------------------------------ GOLIT: how a numeric token of the Go text is read
+/// One row per token text: Rust's own reading (`str::parse::<f32/f64>`, which accepts the decimal forms of Go's
+/// floating-point literal grammar `digits . [digits] [exp] | digits exp | . digits [exp]`) as the reference for the
+/// model's reading `Model/GoConst.ofGoFloatText` + `roundQ` (and python's).  The kind column is the rule of the Go
+/// spec (and of `go_float_literal`): a `.` or an exponent makes the token a floating-point constant.
+fn golit_case(out: &mut Out, text: &str) {
+    let kind = if text.contains(['.', 'e', 'E']) { "float" } else { "int" };
+    let octal = kind == "int" && text.len() > 1 && text.starts_with('0');
+    let r32 = text.parse::<f32>().map(|v| if v.is_finite() { format!("{:x}", v.to_bits()) } else { "overflow".into() }).unwrap_or_else(|_| "err".into());
+    let r64 = text.parse::<f64>().map(|v| if v.is_finite() { format!("{:x}", v.to_bits()) } else { "overflow".into() }).unwrap_or_else(|_| "err".into());
+    let res = if octal { "octal-int".to_string() } else if r64 == "err" { "bad".to_string() } else { format!("{} f32={} f64={}", kind, r32, r64) };
+    out.case("GOLIT", l(vec![a("golit"), a(text)]), &res, "");
+}
+
+fn golit_stream(out: &mut Out, rng: &mut Rng, thorough: bool) {
+    for t in ["0", "7", "10", "16777217", "123456789012345678901234567890", "010", "017", "08", "0.0", "7.0", "7.", ".5", "0.5", "00.5", "09.5", "7e0", "7E0", "7e+0",
+              "7e-0", "7e2", "7e+2", "7E-2", "7.5e3", "7.5E-3", ".5e1", "7.e1", "1e16", "1e-7", "1e38", "1e39", "1e308", "1e309", "1e-45", "1e-46", "1e-320", "1e-324", "1e-400",
+              "0.1", "0.10000000149011612", "0.100000001490116119384765625", "3.4028235e38", "3.4028236e38", "1.7976931348623157e308", "4.9e-324", "1e", "e5", ".", "1.2.3",
+              "1e+", "1e-", "7.e", "1e1.5"] {
+        golit_case(out, t);
+    }
+    // what Rust's formatting traits can print for a float (a printer is free to use any of them): `{}`, `{:?}`, `{:e}`,
+    // `{:E}` of seeded random finite f64 / f32 values (and of the f32 widened, as the back end carries it)
+    for i in 0..(if thorough { 400 } else { 40 }) {
+        let v64 = loop {
+            let v = f64::from_bits(rng.next());
+            if v.is_finite() { break v.abs(); }
+        };
+        let v32 = loop {
+            let v = f32::from_bits(rng.next() as u32);
+            if v.is_finite() { break v.abs(); }
+        };
+        let m64 = ((rng.next() % 2_000_000) as f64) / [1.0, 8.0, 1000.0][i % 3];
+        for s in [format!("{}", v64), format!("{:?}", v64), format!("{:e}", v64), format!("{:E}", v64), format!("{}", v32), format!("{:?}", v32), format!("{:e}", v32),
+                  format!("{}", v32 as f64), format!("{:?}", v32 as f64), format!("{}", m64), format!("{:?}", m64), format!("{:e}", m64)] {
+            golit_case(out, &s);
+        }
+    }
 }
 
 // ------------------------------------------------------------------ OP
@@ -1212,6 +1314,9 @@ pub fn main(args: &Args) {
 
     // ---- FC: float constant expressions
     fc_stream(&mut out, &mut rng, thorough);
+
+    // ---- GOLIT: the reading of numeric tokens (ties Model.GoConst.litValL / ofGoFloatText to Rust's parser)
+    golit_stream(&mut out, &mut rng.fork(0x676f6c6974), thorough);
 
     // ---- FMT
     for (_, rust, _, bits) in INT_TYS {
